@@ -440,7 +440,7 @@ def drive(mod, ctx):
     setup, cases = mod.generate(ctx)
     obs = run_cases(ctx, mod.__name__.split('.')[-1], setup, cases,
                     variant=getattr(mod, 'VARIANT', 'asan'),
-                    timeout=getattr(mod, 'TIMEOUT', 900))
+                    timeout=getattr(mod, 'TIMEOUT', 3600 if ctx.thorough else 900))
     for c, o in zip(cases, obs):
         if std_obs_check(ctx, c, o, getattr(mod, 'CRASH_DECIDES', True),
                          getattr(mod, 'SAN_DECIDES', True), getattr(mod, 'san_mechanism', None)):
